@@ -31,7 +31,7 @@ import (
 )
 
 var extConsts = map[string]int64{
-	"math.MaxInt32": math.MaxInt32, "math.MinInt32": math.MinInt32,
+	"math.MaxInt32": math.MaxInt32, "math.MinInt32": math.MinInt32, "math.MaxInt64": math.MaxInt64, "math.MinInt64": math.MinInt64,
 	"time.Hour": int64(time.Hour), "time.Minute": int64(time.Minute), "time.Second": int64(time.Second),
 	"time.Millisecond": int64(time.Millisecond), "time.Microsecond": int64(time.Microsecond), "time.Nanosecond": int64(time.Nanosecond),
 }
@@ -89,6 +89,7 @@ type tr struct {
 	fset   *token.FileSet
 	consts map[string]string // package-level constants of the file set, already as Coq Z terms
 	strs   map[string]string // package-level string constants
+	wrapMul bool             // int64 arithmetic: products are wrapped to 64 bits
 }
 
 func zlit(v int64) string {
@@ -157,6 +158,10 @@ func (t *tr) expr(e ast.Expr) (s string, isBool bool) {
 				case "int64", "int32", "int":
 					return t.expr(e.Args[0])
 				}
+			case *ast.SelectorExpr:
+				if x, ok := f.X.(*ast.Ident); ok && x.Name == "time" && f.Sel.Name == "Duration" {
+					return t.expr(e.Args[0])
+				}
 			}
 		}
 		fail("call expression")
@@ -192,6 +197,9 @@ func (t *tr) expr(e ast.Expr) (s string, isBool bool) {
 		case token.SUB:
 			return bin("-"), false
 		case token.MUL:
+			if t.wrapMul {
+				return "(wrap64 " + bin("*") + ")", false
+			}
 			return bin("*"), false
 		case token.QUO:
 			return "(Z.quot " + a + " " + b + ")", false
@@ -450,7 +458,7 @@ func coqString(s string) string {
 	return "\"" + strings.ReplaceAll(s, "\"", "\"\"") + "\""
 }
 
-const header = "(* GENERATED by /verif/harness/cmd/go2coq from %s -- do not edit; regenerated on every run *)\nFrom Coq Require Import ZArith String List Bool.\nImport ListNotations.\nOpen Scope Z_scope.\nOpen Scope bool_scope.\n\n"
+const header = "(* GENERATED by /verif/harness/cmd/go2coq from %s -- do not edit; regenerated on every run *)\nFrom Coq Require Import ZArith String List Bool.\nFrom Grpchan Require Import lib.Int.\nImport ListNotations.\nOpen Scope Z_scope.\nOpen Scope bool_scope.\n\n"
 
 func writeIfChanged(path, content string) {
 	old, err := os.ReadFile(path)
@@ -628,27 +636,76 @@ func (g *gen) units(out string) {
 		return "fun suffix : Z =>\n  " + t.stmts([]ast.Stmt{sw}, mode{assign: "unit"}, "0%Z")
 	})
 	fmt.Fprintf(&sb, "(* the unit switch of contextFromHeaders: suffix byte -> nanoseconds (0 = not a unit) *)\nDefinition unit_of : Z -> Z :=\n  %s.\n\n", unit)
-	// Does the server multiply as time.Duration(timeoutVal)*unit with no saturation?
-	sat := g.try("server_saturates", func() string {
+	// the duration handed to context.WithTimeout, as a function of the parsed value and the unit;
+	// int64 multiplication wraps (wrap64), which is what the property is about
+	tw := &tr{fset: fset, consts: map[string]string{}, strs: map[string]string{}, wrapMul: true}
+	st := g.try("server_timeout", func() string {
 		if fd == nil {
 			fail("contextFromHeaders not found")
 		}
-		var sbb strings.Builder
-		printer.Fprint(&sbb, fset, fd.Body)
-		src := sbb.String()
-		if strings.Contains(src, "context.WithTimeout(ctx, time.Duration(timeoutVal)*unit)") {
-			if strings.Contains(src, "math.MaxInt64") {
-				return "true"
+		var blk *ast.BlockStmt
+		ast.Inspect(fd, func(n ast.Node) bool {
+			if is, ok := n.(*ast.IfStmt); ok && blk == nil {
+				var sbb strings.Builder
+				printer.Fprint(&sbb, fset, is.Cond)
+				if sbb.String() == "unit != 0" {
+					blk = is.Body
+				}
 			}
-			return "false"
+			return true
+		})
+		if blk == nil {
+			fail("no `if unit != 0` block in contextFromHeaders")
 		}
-		if strings.Contains(src, "math.MaxInt64") {
-			return "true"
+		term := ""
+		lets := []string{}
+		for _, stt := range blk.List {
+			switch x := stt.(type) {
+			case *ast.AssignStmt:
+				if len(x.Lhs) == 1 && len(x.Rhs) == 1 && x.Tok == token.DEFINE {
+					id, ok := x.Lhs[0].(*ast.Ident)
+					if !ok {
+						fail("definition in timeout block")
+					}
+					lets = append(lets, "let "+id.Name+" := "+tw.intExpr(x.Rhs[0])+" in")
+					continue
+				}
+				if len(x.Lhs) == 2 && len(x.Rhs) == 1 {
+					call, ok := x.Rhs[0].(*ast.CallExpr)
+					if ok && len(call.Args) == 2 {
+						var sbb strings.Builder
+						printer.Fprint(&sbb, fset, call.Fun)
+						if sbb.String() == "context.WithTimeout" {
+							term = tw.intExpr(call.Args[1])
+							continue
+						}
+					}
+				}
+				fail("statement in timeout block outside the fragment")
+			case *ast.IfStmt:
+				// if c { x = e }  ==>  let x := if c then e else x in
+				if x.Else != nil || x.Init != nil || len(x.Body.List) != 1 {
+					fail("if shape in timeout block")
+				}
+				as, ok := x.Body.List[0].(*ast.AssignStmt)
+				if !ok || len(as.Lhs) != 1 || len(as.Rhs) != 1 || as.Tok != token.ASSIGN {
+					fail("if body in timeout block")
+				}
+				id, ok := as.Lhs[0].(*ast.Ident)
+				if !ok {
+					fail("if body target")
+				}
+				lets = append(lets, "let "+id.Name+" := (if "+tw.boolExpr(x.Cond)+" then "+tw.intExpr(as.Rhs[0])+" else "+id.Name+") in")
+			default:
+				fail("statement %T in timeout block", stt)
+			}
 		}
-		fail("timeout computation no longer of the form time.Duration(timeoutVal)*unit")
-		return ""
+		if term == "" {
+			fail("no context.WithTimeout(ctx, <duration>) in the `unit != 0` block")
+		}
+		return "fun (timeoutVal unit : Z) =>\n  " + strings.Join(lets, "\n  ") + "\n  " + term
 	})
-	fmt.Fprintf(&sb, "(* whether contextFromHeaders guards the multiplication against int64 overflow (syntactic: mentions math.MaxInt64) *)\nDefinition server_saturates : bool := %s.\n\n", sat)
+	fmt.Fprintf(&sb, "(* contextFromHeaders: the duration given to context.WithTimeout; int64 products wrap *)\nDefinition server_timeout : Z -> Z -> Z :=\n  %s.\n\n", st)
 
 	fsetc, fc := g.parse("httpgrpc/client.go")
 	tc := &tr{fset: fsetc, consts: map[string]string{}, strs: map[string]string{}}
